@@ -44,6 +44,18 @@ def unicode_lines(quick, rng):
                 continue
             esc = b"\\u" + hex4(hi, (hi + lo) % 2 == 0) + b"\\u" + hex4(lo, lo % 3 == 0)
             lines.append(rg.line(b'"' + esc + b'"' if lo % 2 else b'["p' + esc + b'q"]', o, tag="pair"))
+    # escapes in KEYS next to sibling keys that are their prefix / differ only after the escape: the decoded key
+    # is a key of its own (in either order of appearance, with values of different kinds)
+    escs = [b"\\u0000", b"\\u0001", b"\\u0041", b"\\u00e9", b"\\u20AC", b"\\ud83d\\ude00", b"\\u0000\\u00e9", b"\\n"]
+    for e1 in escs:
+        for base in (b"", b"a", b"key"):
+            k1, k2 = b'"' + base + b'"', b'"' + base + e1 + b'"'
+            lines.append(rg.line(b"{" + k1 + b":1," + k2 + b":2}", o, tag="keyesc"))
+            lines.append(rg.line(b"{" + k2 + b':"x",' + k1 + b":[true]}", o, tag="keyesc"))
+            lines.append(rg.line(b"{" + k1 + b":1," + k2 + b":2," + b'"' + base + e1 + b'b":3,' + k2 + b":4}", o, tag="keyesc"))
+            for e2 in escs[:4]:
+                if e2 != e1:
+                    lines.append(rg.line(b'{"' + base + e1 + b'":1,"' + base + e2 + b'":2}', o, tag="keyesc"))
     # unpaired surrogates: only "no crash, some code" is required, the specification still predicts them
     for u in list(range(0xD800, 0xE000, 7)):
         lines.append(rg.line(b'"' + b"\\u" + hex4(u, False) + b'"', o, tag="unpaired"))
